@@ -25,3 +25,7 @@ uniffi::setup_scaffolding!();
 
 #[doc(inline)]
 pub use crate::node::{Node, NodeBuilder, NodeError, Result};
+
+/// Verification hooks, compiled only with `--cfg eigerco_lumina_verif`.
+#[cfg(eigerco_lumina_verif)]
+pub mod verif;
